@@ -5,9 +5,16 @@
 
 package onevent
 
-//@ unit setup_sweep props=C11 files=on.go nilchecks=on nonnil_params=on dispenser_variants=on exclude=`onevent\.setup\$1$` filter=`.`
+//@ unit setup_sweep props=C11 files=on.go nilchecks=on nonnil_params=on dispenser_variants=on filter=`.`
 //@ // Safety sweep of this directive's setup code: index, slice, division, nil-map store, nil dereference, explicit panic,
 //@ // and termination of the loops driven by the token cursor. No functional contract; callees in the dispenser through their contracts.
 //@ use casketfile/contracts_verif.go:dispenser_api
 //@ use @verif/specs/stdlib.spec:stdlib
 //@ use @verif/specs/stdlib.spec:casket_api
+//@ // the once-per-server-block callback registers the hooks onParse returned: every entry is a non-nil config
+//@ func onParse
+//@   requires c != nil
+//@   ensures [hook_configs_exist] forall(k, 0, len(result0), result0[k] != nil)
+//@   loop 1 invariant c != nil && forall(k, 0, len(config), config[k] != nil)
+//@ func setup$1
+//@   requires forall(k, 0, len(config), config[k] != nil)
